@@ -1364,6 +1364,12 @@ def _check(ctx):
 
 _LO = "        if len(self._buffer) >= (self.MAX_LENGTH + len(self.delimiter)):\n            return self.lineLengthExceeded(self._buffer)\n"
 MUTANTS = [
+    Mutant("line-split-into-two-locals-rest-never-stored", B, '                        line, self._buffer = self._buffer.split(self.delimiter, 1)\n', "                        line, rest = self._buffer.split(self.delimiter, 1)\n", expect_rule="line/"),
+    Mutant("netstring-inlined-hand-over-without-comma-check", B, '        self._checkForTrailingComma()\n        self._state = self._PARSING_LENGTH\n        self._processPayload()\n', '        whole = self._payload.getvalue()\n        self._state = self._PARSING_LENGTH\n        self.stringReceived(whole[:-1])\n', expect_rule="netstring/comma-checked"),
+    Mutant("netstring-inlined-hand-over-keeps-the-comma", B, '        self._checkForTrailingComma()\n        self._state = self._PARSING_LENGTH\n        self._processPayload()\n', '        whole = self._payload.getvalue()\n        if whole[-1:] != b",":\n            raise NetstringParseError(self._MISSING_COMMA)\n        self._state = self._PARSING_LENGTH\n        self.stringReceived(whole)\n', expect_rule="netstring/payload-without-comma"),
+    Mutant("netstring-inlined-preparation-keeps-old-payload", B, '            self._consumeLength()\n            self._prepareForPayloadConsumption()\n', '            self._consumeLength()\n            self._currentPayloadSize = 0\n            self._state = self._PARSING_PAYLOAD\n', expect_rule="netstring/payload-state-reset"),
+    Mutant("netstring-inlined-digit-pre-check-too-tight", B, '        self._checkStringSize(lengthAsString)\n        length = int(lengthAsString)\n', '        if len(lengthAsString) >= self._maxLengthSize():\n            raise NetstringParseError(self._TOO_LONG % (self.MAX_LENGTH,))\n        length = int(lengthAsString)\n', expect_rule="netstring/digit-precheck"),
+    Mutant("intn-walrus-guard-needs-one-byte-more", B, '        while len(alldata) >= (currentOffset + prefixLength) and not self.paused:\n            messageStart = currentOffset + prefixLength\n', '        while len(alldata) > (messageStart := currentOffset + prefixLength) and not self.paused:\n', expect_rule="intn/prefix-boundary"),
     Mutant("line-busy-flag-context-manager-forgets-to-clear-it", B,
            '        try:\n            self._busyReceiving = True\n            self._buffer += data\n            while self._buffer and not self.paused:\n                if self.line_mode:\n                    try:\n                        line, self._buffer = self._buffer.split(self.delimiter, 1)\n                    except ValueError:\n                        if len(self._buffer) >= (self.MAX_LENGTH + len(self.delimiter)):\n                            line, self._buffer = self._buffer, b""\n                            return self.lineLengthExceeded(line)\n                        return\n                    else:\n                        lineLength = len(line)\n                        if lineLength > self.MAX_LENGTH:\n                            exceeded = line + self.delimiter + self._buffer\n                            self._buffer = b""\n                            return self.lineLengthExceeded(exceeded)\n                        why = self.lineReceived(line)\n                        if why or self.transport and self.transport.disconnecting:\n                            return why\n                else:\n                    data = self._buffer\n                    self._buffer = b""\n                    why = self.rawDataReceived(data)\n                    if why:\n                        return why\n        finally:\n            self._busyReceiving = False\n',
            '        with _Receiving(self):\n            self._buffer += data\n            while self._buffer and not self.paused:\n                if self.line_mode:\n                    try:\n                        line, self._buffer = self._buffer.split(self.delimiter, 1)\n                    except ValueError:\n                        if len(self._buffer) >= (self.MAX_LENGTH + len(self.delimiter)):\n                            line, self._buffer = self._buffer, b""\n                            return self.lineLengthExceeded(line)\n                        return\n                    else:\n                        lineLength = len(line)\n                        if lineLength > self.MAX_LENGTH:\n                            exceeded = line + self.delimiter + self._buffer\n                            self._buffer = b""\n                            return self.lineLengthExceeded(exceeded)\n                        why = self.lineReceived(line)\n                        if why or self.transport and self.transport.disconnecting:\n                            return why\n                else:\n                    data = self._buffer\n                    self._buffer = b""\n                    why = self.rawDataReceived(data)\n                    if why:\n                        return why\n',
@@ -1474,6 +1480,13 @@ MUTANTS = [
            expect_rule="line-only/segmentation-invariant"),
 ]
 SILENT = [
+    Silent("line-split-into-two-locals-rest-stored-next", B, '                        line, self._buffer = self._buffer.split(self.delimiter, 1)\n', "                        line, rest = self._buffer.split(self.delimiter, 1)\n                        self._buffer = rest\n"),
+    Silent("netstring-comma-check-and-hand-over-written-out-in-place", B, '        self._checkForTrailingComma()\n        self._state = self._PARSING_LENGTH\n        self._processPayload()\n', '        whole = self._payload.getvalue()\n        if whole[-1:] != b",":\n            raise NetstringParseError(self._MISSING_COMMA)\n        self._state = self._PARSING_LENGTH\n        self.stringReceived(whole[:-1])\n'),
+    Silent("netstring-payload-preparation-written-out-in-place", B, '            self._consumeLength()\n            self._prepareForPayloadConsumption()\n', '            self._consumeLength()\n            self._payload.seek(0)\n            self._payload.truncate()\n            self._currentPayloadSize = 0\n            self._state = self._PARSING_PAYLOAD\n'),
+    Silent("netstring-digit-pre-check-written-out-in-place", B, '        self._checkStringSize(lengthAsString)\n        length = int(lengthAsString)\n', '        if len(lengthAsString) > self._maxLengthSize():\n            raise NetstringParseError(self._TOO_LONG % (self.MAX_LENGTH,))\n        length = int(lengthAsString)\n'),
+    Silent("intn-header-end-bound-by-walrus-in-the-loop-test", B, '        while len(alldata) >= (currentOffset + prefixLength) and not self.paused:\n            messageStart = currentOffset + prefixLength\n', '        while len(alldata) >= (messageStart := currentOffset + prefixLength) and not self.paused:\n'),
+    Silent("line-only-last-piece-by-index", B, "        lines = (self._buffer + data).split(self.delimiter)\n        self._buffer = lines.pop(-1)\n        for line in lines:\n",
+           "        parts = (self._buffer + data).split(self.delimiter)\n        self._buffer = parts[-1]\n        for line in parts[:-1]:\n"),
     Silent("line-busy-flag-through-a-context-manager-class", B,
            '        try:\n            self._busyReceiving = True\n            self._buffer += data\n            while self._buffer and not self.paused:\n                if self.line_mode:\n                    try:\n                        line, self._buffer = self._buffer.split(self.delimiter, 1)\n                    except ValueError:\n                        if len(self._buffer) >= (self.MAX_LENGTH + len(self.delimiter)):\n                            line, self._buffer = self._buffer, b""\n                            return self.lineLengthExceeded(line)\n                        return\n                    else:\n                        lineLength = len(line)\n                        if lineLength > self.MAX_LENGTH:\n                            exceeded = line + self.delimiter + self._buffer\n                            self._buffer = b""\n                            return self.lineLengthExceeded(exceeded)\n                        why = self.lineReceived(line)\n                        if why or self.transport and self.transport.disconnecting:\n                            return why\n                else:\n                    data = self._buffer\n                    self._buffer = b""\n                    why = self.rawDataReceived(data)\n                    if why:\n                        return why\n        finally:\n            self._busyReceiving = False\n',
            '        with _Receiving(self):\n            self._buffer += data\n            while self._buffer and not self.paused:\n                if self.line_mode:\n                    try:\n                        line, self._buffer = self._buffer.split(self.delimiter, 1)\n                    except ValueError:\n                        if len(self._buffer) >= (self.MAX_LENGTH + len(self.delimiter)):\n                            line, self._buffer = self._buffer, b""\n                            return self.lineLengthExceeded(line)\n                        return\n                    else:\n                        lineLength = len(line)\n                        if lineLength > self.MAX_LENGTH:\n                            exceeded = line + self.delimiter + self._buffer\n                            self._buffer = b""\n                            return self.lineLengthExceeded(exceeded)\n                        why = self.lineReceived(line)\n                        if why or self.transport and self.transport.disconnecting:\n                            return why\n                else:\n                    data = self._buffer\n                    self._buffer = b""\n                    why = self.rawDataReceived(data)\n                    if why:\n                        return why\n',
